@@ -665,3 +665,224 @@ Proof.
   apply (SNested _ _ _ 0%nat); [reflexivity | | exact T].
   apply (SOther ex_sc 0 8 [x08] [x01] []); [vrep | exact P1 | right; cbn; lia | constructor].
 Qed.
+
+(* =====================================================================================================
+   Gap closing (Proofs/C17GapA.v: the clause-by-clause table is its header).  New vocabulary, specification
+   side only (Model/C17GapDefs.v): [kept cd nw] - class cd keeps a record with tag value nw verbatim (number
+   declared by no field, or Message._wire_type_fits false; groups included); [unk_of cd bs u] - u is the
+   concatenation, in order, of the complete top-level records of bs that cd keeps.
+   ===================================================================================================== *)
+From BP Require Import Model.C17GapDefs Proofs.C17GapA.
+
+(* ---- "isolated": exactly which bytes end up in _unknown_fields, for every byte string of complete records,
+        every schema, every state of the message parsed into ---- *)
+Theorem C17_unknown_exact : forall sc c bs u m,
+  unk_of (get_class sc c) bs u -> parse sc c bs = Ok m -> ounk m = u.
+Proof. exact unknown_exact. Qed.
+Print Assumptions C17_unknown_exact.
+
+Theorem C17_unknown_exact_into : forall sc o bs u m,
+  unk_of (get_class sc (ocls o)) bs u -> parse_into sc o bs = Ok m -> ounk m = ounk o ++ u.
+Proof. exact unknown_exact_into. Qed.
+Print Assumptions C17_unknown_exact_into.
+
+(* [unk_of] is a total function of the bytes on record sequences; what is kept is again a record sequence, all kept *)
+Theorem C17_unk_of_total : forall cd bs, wrecs bs -> exists u, unk_of cd bs u.
+Proof. exact unk_of_total. Qed.
+Print Assumptions C17_unk_of_total.
+
+Theorem C17_unk_of_unique : forall cd bs u u', unk_of cd bs u -> unk_of cd bs u' -> u = u'.
+Proof. exact unk_of_unique. Qed.
+Print Assumptions C17_unk_of_unique.
+
+Theorem C17_unk_of_kept_again : forall cd bs u, unk_of cd bs u -> unk_of cd u u.
+Proof. exact unk_of_kept_again. Qed.
+Print Assumptions C17_unk_of_kept_again.
+
+Theorem C17_unk_of_app : forall cd a ua b ub, unk_of cd a ua -> unk_of cd b ub -> unk_of cd (a ++ b) (ua ++ ub).
+Proof. exact unk_of_app. Qed.
+Print Assumptions C17_unk_of_app.
+
+(* composed with the acceptance criterion and the typing theorem: every [valid] input is decoded, typed, re-encodable,
+   and its _unknown_fields are exactly the kept records *)
+Theorem C17_valid_unknown_exact : forall sc c bs,
+  wf_schema sc = true -> has_builtins sc -> entries_agree sc = true -> valid sc c bs ->
+  exists m u, parse sc c bs = Ok m /\ unk_of (get_class sc c) bs u /\ ounk m = u /\
+              well_typed sc m = true /\ decoded_range sc m = true /\ ocls m = c /\ exists bs', enc_obj sc m = Ok bs'.
+Proof. exact valid_unknown_exact. Qed.
+Print Assumptions C17_valid_unknown_exact.
+
+(* ---- one statement for every record the class keeps (unknown number, misfit, group), and the converse: a complete
+        record is appended to _unknown_fields EXACTLY when the class keeps it ---- *)
+Theorem C17_kept_isolated : forall sc o nw r,
+  wrec nw r -> kept (get_class sc (ocls o)) nw = true -> parse_into sc o r = Ok (add_unknown (mark_on_wire o) r).
+Proof. exact kept_isolated. Qed.
+Print Assumptions C17_kept_isolated.
+
+Theorem C17_kept_in_stream : forall sc o pre nw r post,
+  wrecs pre -> wrec nw r -> kept (get_class sc (ocls o)) nw = true ->
+  parse_into sc o (pre ++ r ++ post) = (do o1 <- parse_into sc o pre; parse_into sc (add_unknown o1 r) post).
+Proof. exact kept_in_stream. Qed.
+Print Assumptions C17_kept_in_stream.
+
+Theorem C17_record_unknown_iff : forall sc o nw r m,
+  wrec nw r -> parse_into sc o r = Ok m ->
+  ounk m = ounk o ++ (if kept (get_class sc (ocls o)) nw then r else []).
+Proof. exact record_unknown_iff. Qed.
+Print Assumptions C17_record_unknown_iff.
+
+(* ---- the third entry point, Cls().load(stream, SIZE_DELIMITED): acceptance criterion over the specification alone,
+        typing, unknown bytes; agreement of the entry points ---- *)
+Theorem C17_delimited_accept_iff : forall sc, wf_schema sc = true -> has_builtins sc -> entries_agree sc = true ->
+  forall c s, (exists m s', load_delimited sc c s = Ok (m, s')) <->
+              (exists pre p s', s = pre ++ p ++ s' /\ VarintRep (Zlength p) pre /\ valid sc c p).
+Proof. exact delimited_accept_iff. Qed.
+Print Assumptions C17_delimited_accept_iff.
+
+Theorem C17_delimited_welltyped : forall sc c s m s',
+  wf_schema sc = true -> has_builtins sc -> entries_agree sc = true ->
+  load_delimited sc c s = Ok (m, s') ->
+  well_typed sc m = true /\ decoded_range sc m = true /\ ocls m = c /\ exists bs', enc_obj sc m = Ok bs'.
+Proof. exact delimited_welltyped. Qed.
+Print Assumptions C17_delimited_welltyped.
+
+Theorem C17_delimited_unknown : forall sc c s m s',
+  load_delimited sc c s = Ok (m, s') ->
+  exists pre p, s = pre ++ p ++ s' /\ VarintRep (Zlength p) pre /\
+                forall u, unk_of (get_class sc c) p u -> ounk m = u.
+Proof. exact delimited_unknown. Qed.
+Print Assumptions C17_delimited_unknown.
+
+Theorem C17_entry_points_agree : forall sc c pre p rest,
+  VarintRep (Zlength p) pre ->
+  (forall m, load_delimited sc c (pre ++ p ++ rest) = Ok (m, rest) <-> parse sc c p = Ok m) /\
+  (forall m r', load_delimited sc c (pre ++ p ++ rest) = Ok (m, r') -> r' = rest) /\
+  ((exists e, load_delimited sc c (pre ++ p ++ rest) = Err e) <-> (exists e, parse sc c p = Err e)).
+Proof. exact entry_points_agree. Qed.
+Print Assumptions C17_entry_points_agree.
+
+(* ... on accept / reject and on the message, NOT on the exception class *)
+Theorem C17_entry_points_err_class_refuted :
+  exists sc c pre p rest e e',
+    VarintRep (Zlength p) pre /\ parse sc c p = Err e /\ load_delimited sc c (pre ++ p ++ rest) = Err e' /\ e <> e'.
+Proof. exact entry_points_err_class_refuted. Qed.
+Print Assumptions C17_entry_points_err_class_refuted.
+
+(* ================= non-vacuity, gap closing ================= *)
+(* x = 5; a length-delimited record on the int32 field 1 (misfit); a group numbered 1; a varint on the undeclared number 15;
+   s = "A": the three foreign records are kept, in order *)
+Example C17_unk_of_example :
+  unk_of (get_class ex_sc 11)
+    ([x08] ++ [x05] ++ [x0a] ++ [x02; x01; x02] ++ [x0b] ++ [x08; x09; x0c] ++ [x78] ++ [x01] ++ [x12] ++ [x01; x41] ++ [])
+    ([x0a] ++ [x02; x01; x02] ++ [x0b] ++ [x08; x09; x0c] ++ [x78] ++ [x01] ++ []) /\
+  kept (get_class ex_sc 11) 8 = false /\ kept (get_class ex_sc 11) 10 = true /\ kept (get_class ex_sc 11) 11 = true /\
+  kept (get_class ex_sc 11) 120 = true /\
+  (exists m, parse ex_sc 11 [x08; x05; x0a; x02; x01; x02; x0b; x08; x09; x0c; x78; x01; x12; x01; x41] = Ok m /\
+             ounk m = [x0a; x02; x01; x02; x0b; x08; x09; x0c; x78; x01]).
+Proof.
+  split.
+  { apply (UDrop _ 8); [vrep | apply (PVarint 8 5); try (cbn; lia); vrep | vm_compute; reflexivity|].
+    apply (UKeep _ 10); [vrep | apply (PLen 10 [x02] [x01; x02]); try (cbn; lia); vrep | vm_compute; reflexivity|].
+    apply (UKeep _ 11); [vrep | | vm_compute; reflexivity|].
+    { apply (PGroup 11 [x08; x09] 12 [x0c]); try (cbn; lia); [|vrep].
+      apply (WCons 8 [x08] [x09] []); [vrep | apply (PVarint 8 9); try (cbn; lia); vrep | constructor]. }
+    apply (UKeep _ 120); [vrep | apply (PVarint 120 1); try (cbn; lia); vrep | vm_compute; reflexivity|].
+    apply (UDrop _ 18); [vrep | apply (PLen 18 [x01] [x41]); try (cbn; lia); vrep | vm_compute; reflexivity | constructor]. }
+  repeat (split; [vm_compute; reflexivity|]).
+  eexists. split; vm_compute; reflexivity.
+Qed.
+
+(* the frame 02 08 05 followed by FF: accepted, FF left unread; the frame 01 08 is rejected *)
+Example C17_delimited_nonvacuous :
+  VarintRep (Zlength [x08; x05]) [x02] /\ valid ex_sc 11 [x08; x05] /\
+  (exists m, load_delimited ex_sc 11 ([x02] ++ [x08; x05] ++ [xff]) = Ok (m, [xff])) /\
+  load_delimited ex_sc 11 [x01; x08] = Err EEof /\ load_delimited ex_sc 11 [x01; x08; x05] = Err EValue /\
+  parse ex_sc 11 [x08] = Err EEof.
+Proof.
+  split; [vrep|]. split.
+  { apply (VOther ex_sc 11 8 [x08] [x05] []); [vrep | apply (PVarint 8 5); try (cbn; lia); vrep | right; cbn; lia | constructor]. }
+  split; [eexists; vm_compute; reflexivity|]. repeat split; vm_compute; reflexivity.
+Qed.
+
+(* ---- second group (Proofs/C17GapB.v): exception CLASS of the tag-level rejections, after any run of complete records
+        that parse accepts; and "a valid encoding" = what betterproto itself writes ---- *)
+From BP Require Import Model.C01Def Proofs.C17GapB.
+
+Theorem C17_bad_tag_class : forall sc o pre o1 nw tag rest,
+  wrecs pre -> parse_into sc o pre = Ok o1 -> VarintRep nw tag ->
+  (tag_num nw = 0 \/ tag_wt nw = 4 \/ tag_wt nw = 6 \/ tag_wt nw = 7) ->
+  parse_into sc o (pre ++ tag ++ rest) = Err EValue.
+Proof. exact bad_tag_class. Qed.
+Print Assumptions C17_bad_tag_class.
+
+Theorem C17_bad_tag_class_valid : forall sc c pre nw tag rest,
+  wf_schema sc = true -> has_builtins sc -> entries_agree sc = true ->
+  valid sc c pre -> VarintRep nw tag ->
+  (tag_num nw = 0 \/ tag_wt nw = 4 \/ tag_wt nw = 6 \/ tag_wt nw = 7) ->
+  parse sc c (pre ++ tag ++ rest) = Err EValue.
+Proof. exact bad_tag_class_valid. Qed.
+Print Assumptions C17_bad_tag_class_valid.
+
+Theorem C17_cut_tag_class : forall sc o pre o1 nw tag x y,
+  wrecs pre -> parse_into sc o pre = Ok o1 -> VarintRep nw tag -> tag = x ++ y -> x <> [] -> y <> [] ->
+  parse_into sc o (pre ++ x) = Err EEof.
+Proof. exact cut_tag_class. Qed.
+Print Assumptions C17_cut_tag_class.
+
+(* whatever load_varint raises on the next tag (EOFError: cut; ValueError: more than ten bytes) is what parse raises *)
+Theorem C17_tag_error_class : forall sc o pre o1 rest e,
+  wrecs pre -> parse_into sc o pre = Ok o1 -> rest <> [] -> load_varint rest = Err e ->
+  parse_into sc o (pre ++ rest) = Err e.
+Proof. exact long_tag_class. Qed.
+Print Assumptions C17_tag_error_class.
+
+(* bytes(m) of every message meeting C01's decidable value condition (C01_reachable_value_ok_parse: every message a history of
+   public-API operations produces) is [valid] for its class: "a valid encoding" of the property text covers betterproto's own output *)
+Theorem C17_own_encoding_valid : forall sc m bs,
+  c01_schema_ok sc = true -> has_builtins sc -> entries_agree sc = true ->
+  c01_value_ok sc m = true -> enc_obj sc m = Ok bs -> Zlength bs < 2 ^ 64 ->
+  valid sc (ocls m) bs.
+Proof. exact own_encoding_valid. Qed.
+Print Assumptions C17_own_encoding_valid.
+
+(* ... and a cut of bytes(m) anywhere strictly inside one of its top-level records is rejected by the class of m *)
+Theorem C17_own_encoding_cut_rejected : forall sc m pre nw r post k,
+  wrecs pre -> wrec nw r -> (0 < k < length r)%nat ->
+  enc_obj sc m = Ok (pre ++ r ++ post) ->
+  exists e, parse sc (ocls m) (firstn (length pre + k) (pre ++ r ++ post)) = Err e.
+Proof. exact own_encoding_cut_rejected. Qed.
+Print Assumptions C17_own_encoding_cut_rejected.
+
+(* non-vacuity: after the accepted record 08 05 - tag 00 (field number 0): ValueError; F8 01 cut after its first byte: EOFError;
+   eleven continuation bytes: ValueError (too many bytes) *)
+Example C17_tag_class_nonvacuous :
+  (exists o1, parse_into ex_sc (new ex_sc 11) [x08; x05] = Ok o1) /\ VarintRep 0 [x00] /\ tag_num 0 = 0 /\
+  parse ex_sc 11 ([x08; x05] ++ [x00] ++ [x01]) = Err EValue /\
+  VarintRep 248 [xf8; x01] /\ parse ex_sc 11 ([x08; x05] ++ [xf8]) = Err EEof /\
+  load_varint [xff; xff; xff; xff; xff; xff; xff; xff; xff; xff; xff] = Err ETooLong /\
+  parse ex_sc 11 ([x08; x05] ++ [xff; xff; xff; xff; xff; xff; xff; xff; xff; xff; xff]) = Err ETooLong.
+Proof.
+  split; [eexists; vm_compute; reflexivity|]. split; [vrep|]. split; [reflexivity|]. split; [vm_compute; reflexivity|].
+  split; [vrep|]. repeat split; vm_compute; reflexivity.
+Qed.
+
+(* x = 5, s = "A", r = [-1, 150]: meets C01's condition; its bytes, their validity through the theorem, a cut inside the s record *)
+Definition ex_own : obj :=
+  Obj 11 [PInt 5; PStr [x41]; PPlaceholder; PNone; PPlaceholder; PList [PInt (-1); PInt 150]; PPlaceholder;
+          PPlaceholder; PPlaceholder; PPlaceholder; PPlaceholder] true [] [None].
+
+Example C17_own_encoding_nonvacuous :
+  c01_schema_ok ex_sc = true /\ c01_value_ok ex_sc ex_own = true /\
+  enc_obj ex_sc ex_own = Ok ([x08; x05] ++ [x12; x01; x41] ++ [x32; x03; x01; xac; x02]) /\
+  valid ex_sc 11 ([x08; x05] ++ [x12; x01; x41] ++ [x32; x03; x01; xac; x02]) /\
+  parse ex_sc 11 (firstn (2 + 2) ([x08; x05] ++ [x12; x01; x41] ++ [x32; x03; x01; xac; x02])) = Err EEof.
+Proof.
+  destruct C17_schema_side_conditions as (W & E & B).
+  assert (S : c01_schema_ok ex_sc = true) by (vm_compute; reflexivity).
+  assert (V : c01_value_ok ex_sc ex_own = true) by (vm_compute; reflexivity).
+  assert (N : enc_obj ex_sc ex_own = Ok ([x08; x05] ++ [x12; x01; x41] ++ [x32; x03; x01; xac; x02]))
+    by (vm_compute; reflexivity).
+  split; [exact S|]. split; [exact V|]. split; [exact N|]. split.
+  - apply (C17_own_encoding_valid ex_sc ex_own _ S B E V N). vm_compute. reflexivity.
+  - vm_compute. reflexivity.
+Qed.
